@@ -84,6 +84,7 @@ const (
 	MetaMaxSize            = 512 // Maximum size for node meta data
 	compoundHeaderOverhead = 2   // Assumed header overhead
 	compoundOverhead       = 2   // Assumed overhead per entry in compoundHeader
+	crcHeaderOverhead      = 5   // hasCrcMsg byte plus the checksum added by rawSendMsgPacket
 	userMsgOverhead        = 1
 	blockingWarning        = 10 * time.Millisecond // Warn if a UDP packet takes this long to process
 	maxPushStateBytes      = 20 * 1024 * 1024
@@ -800,8 +801,9 @@ func (m *Memberlist) encodeAndSendMsg(a Address, msgType messageType, msg any) e
 // sendMsg is used to send a message via packet to another host. It will
 // opportunistically create a compoundMsg and piggy back other broadcasts.
 func (m *Memberlist) sendMsg(a Address, msg []byte) error {
-	// Check if we can piggy back any messages
-	bytesAvail := m.config.UDPBufferSize - len(msg) - compoundHeaderOverhead - labelOverhead(m.config.Label)
+	// Check if we can piggy back any messages. The message itself becomes an
+	// entry of the compound message, and a CRC header may be added on top.
+	bytesAvail := m.config.UDPBufferSize - len(msg) - compoundHeaderOverhead - compoundOverhead - crcHeaderOverhead - labelOverhead(m.config.Label)
 	if m.config.EncryptionEnabled() && m.config.GossipVerifyOutgoing {
 		bytesAvail -= encryptOverhead(m.encryptionVersion())
 	}
@@ -817,11 +819,14 @@ func (m *Memberlist) sendMsg(a Address, msg []byte) error {
 	msgs = append(msgs, msg)
 	msgs = append(msgs, extra...)
 
-	// Create a compound message
-	compound := makeCompoundMessage(msgs)
-
-	// Send the message
-	return m.rawSendMsgPacket(a, nil, compound.Bytes())
+	// Create one or more compound messages (each holds at most 255 entries)
+	compounds := makeCompoundMessages(msgs)
+	for _, compound := range compounds {
+		if err := m.rawSendMsgPacket(a, nil, compound.Bytes()); err != nil {
+			return err
+		}
+	}
+	return nil
 }
 
 // rawSendMsgPacket is used to send message via packet to another host without
